@@ -473,5 +473,126 @@ def specOut (vf : Verifier) (allowHTTP insecure : Bool) : Event → EvOut
     .origin (originVerifyName r.authority)
       (absoluteAs vf allowHTTP insecure r.cert (originVerifyName r.authority) r.now)
 
+/-! ## Which CAs an instance trusts: histories of instance construction in ONE process
+
+  `tls.go` `TLSClientConfig.loadRootCAs`, called once per `NewHTTPTransport` (the proxy's transport,
+  the PAC download transport, every further proxy an embedding program builds):
+      if len(c.CACertFiles) == 0 { return nil }            // RootCAs stays nil: crypto/tls uses the system roots
+      rootCAs, err := x509.SystemCertPool()                // a private COPY of the system pool per call
+      … rootCAs.AppendCertsFromPEM(file) for every file …
+      tlsCfg.RootCAs = rootCAs
+  so the trust set of an instance is made of the system roots and ITS OWN `--cacert-file` list.
+  `PoolHandling.shared` is the variant in which the system pool is loaded once per process and handed
+  out by pointer, every instance appending to that one pool; it exists for the witness theorem only. -/
+
+/-- a certificate authority, by name -/
+abbrev CA := Nat
+
+/-- what of a transport configuration decides whom it trusts -/
+structure TrustCfg where
+  extra : List CA          -- `CACertFiles`, in order
+  insecure : Bool          -- `Insecure` → `InsecureSkipVerify`
+  deriving DecidableEq, Repr
+
+/-- the trust set of an instance: a function of its own configuration (and the system roots) -/
+def trustOf (sys : List CA) (cfg : TrustCfg) : List CA :=
+  if cfg.extra.isEmpty then sys else sys ++ cfg.extra
+
+/-- the chain check of an origin certificate issued by `signer` (`Cert.byCA` of the verifier) -/
+def trustsSigner (sys : List CA) (cfg : TrustCfg) (signer : CA) : Bool :=
+  (trustOf sys cfg).contains signer
+
+/-- `x509.SystemCertPool()` per call (the tree) or one pool per process -/
+inductive PoolHandling where
+  | copied | shared
+  deriving DecidableEq, Repr
+
+/-- `tls.Config.RootCAs` of a built transport -/
+inductive Roots where
+  | system                       -- nil: the system roots
+  | own (pool : List CA)         -- a pool nobody else holds
+  | processWide                  -- a pointer to the one pool of the process
+  deriving DecidableEq, Repr
+
+/-- a built transport / proxy instance, as far as chain verification can tell -/
+structure Built where
+  roots : Roots
+  insecure : Bool
+  deriving DecidableEq, Repr
+
+/-- the process: the pool a `shared` loader hands out, and the instances in order of construction -/
+structure Proc where
+  sharedPool : List CA
+  built : List Built
+  deriving DecidableEq, Repr
+
+/-- nothing built yet; the process-wide pool, once loaded, holds the system roots -/
+def Proc.start (sys : List CA) : Proc := ⟨sys, []⟩
+
+/-- what `loadRootCAs` leaves in `RootCAs` for a configuration, pool of its own -/
+def mkBuilt (sys : List CA) (cfg : TrustCfg) : Built :=
+  if cfg.extra.isEmpty then ⟨.system, cfg.insecure⟩ else ⟨.own (sys ++ cfg.extra), cfg.insecure⟩
+
+/-- `NewHTTPTransport(cfg)` -/
+def buildStep (h : PoolHandling) (sys : List CA) (p : Proc) (cfg : TrustCfg) : Proc :=
+  match h with
+  | .copied => { p with built := p.built ++ [mkBuilt sys cfg] }
+  | .shared =>
+    if cfg.extra.isEmpty then { p with built := p.built ++ [⟨.system, cfg.insecure⟩] }
+    else { sharedPool := p.sharedPool ++ cfg.extra, built := p.built ++ [⟨.processWide, cfg.insecure⟩] }
+
+/-- the pool `RootCAs` denotes NOW (a pointer is followed at verification time) -/
+def poolOf (sys : List CA) (p : Proc) : Roots → List CA
+  | .system => sys
+  | .own l => l
+  | .processWide => p.sharedPool
+
+inductive PEvent where
+  | build (cfg : TrustCfg)          -- a transport / proxy instance is constructed
+  | probe (i : Nat) (signer : CA)   -- instance `i` (order of construction) opens a TLS connection to an
+                                    -- origin whose certificate is good in every respect and chains to `signer`
+  deriving DecidableEq, Repr
+
+inductive POut where
+  | built
+  | accept            -- handshake completes, the request is written
+  | refuse            -- handshake aborted (unknown authority): nothing written, 502 from a proxy
+  | noInstance
+  deriving DecidableEq, Repr
+
+def probeOut (sys : List CA) (p : Proc) (i : Nat) (signer : CA) : POut :=
+  match p.built[i]? with
+  | none => .noInstance
+  | some b => if b.insecure || (poolOf sys p b.roots).contains signer then .accept else .refuse
+
+def pStep (h : PoolHandling) (sys : List CA) (p : Proc) : PEvent → Proc × POut
+  | .build cfg => (buildStep h sys p cfg, .built)
+  | .probe i s => (p, probeOut sys p i s)
+
+/-- what every event of a process history gets, in order -/
+def runProc (h : PoolHandling) (sys : List CA) : Proc → List PEvent → List POut
+  | _, [] => []
+  | p, e :: es =>
+    let r := pStep h sys p e
+    r.2 :: runProc h sys r.1 es
+
+/-- the property's reading: an instance accepts what its OWN configuration trusts -/
+def specProbe (sys : List CA) (cfgs : List TrustCfg) (i : Nat) (signer : CA) : POut :=
+  match cfgs[i]? with
+  | none => .noInstance
+  | some cfg => if cfg.insecure || trustsSigner sys cfg signer then .accept else .refuse
+
+/-- … over a history, remembering nothing but the configurations in order of construction -/
+def specRun (sys : List CA) : List TrustCfg → List PEvent → List POut
+  | _, [] => []
+  | cfgs, .build cfg :: es => .built :: specRun sys (cfgs ++ [cfg]) es
+  | cfgs, .probe i s :: es => specProbe sys cfgs i s :: specRun sys cfgs es
+
+/-- the configurations of the instances a history constructs, in order -/
+def buildsOf : List PEvent → List TrustCfg
+  | [] => []
+  | .build cfg :: es => cfg :: buildsOf es
+  | .probe _ _ :: es => buildsOf es
+
 end C07
 end FwdVerif
